@@ -17,7 +17,7 @@ ASSUMPTIONS = [
 
 
 def bounds(tier):
-    return dict(upgrad_dualproj_m=[1, 2], mgda=dict(m=2, max_iters=[1, 2]), mgda_m3=dict(simplex_membership="free Gramians, max_iters=1; scaled-row families, max_iters<=2", families=len(BASE_ROWS_M3) * 3),
+    return dict(upgrad_dualproj_m=[1, 2], mgda=dict(m=2, max_iters=[1, 2]), mgda_m3=dict(simplex_membership="free Gramians, max_iters=1; scaled-row families, max_iters<=2", families=(len(BASE_ROWS_M3) + (60 if tier == "thorough" else 0)) * 3),
                 cagrad=dict(m=2, c="symbolic >= 1"), s_ge_norm_eps=True)
 
 
@@ -34,6 +34,11 @@ def cases(tier):
     for it in (1, 2):
         cs.append(dict(name=f"mgda_scaled_family_m3_it{it}", fn="mgda_scaled_family", args=dict(iters=it), weight=6))
         cs.append(dict(name=f"mgda_scaled_family_search_m3_it{it}", fn="mgda_scaled_family", args=dict(iters=it, hunt=True), weight=6, timeout_ms=4000, budget_s=90, hunt_only=True))
+    if tier == "thorough":
+        for g in range(6):
+            for it in (1, 2):
+                cs.append(dict(name=f"mgda_scaled_family_more{g}_m3_it{it}", fn="mgda_scaled_family", args=dict(iters=it, group=g), weight=8))
+                cs.append(dict(name=f"mgda_scaled_family_more{g}_search_m3_it{it}", fn="mgda_scaled_family", args=dict(iters=it, hunt=True, group=g), weight=8, timeout_ms=4000, budget_s=200, hunt_only=True))
     cs.append(dict(name="cauchy_schwarz_lemma_m3", fn="cauchy_schwarz_lemma", args=dict(m=3), weight=3))
     cs.append(dict(name="cagrad_m2", fn="cagrad", args=dict(m=2), weight=9))
     return cs
@@ -136,13 +141,27 @@ def case_mgda_rowbound(sp, m, iters, hunt=False):
 BASE_ROWS_M3 = [[[1, 0], [1, 1], [1, -1]], [[1, 1], [2, 1], [2, -1]], [[1, 0, 0], [1, 1, 0], [1, 1, 1]], [[1, 1, 0], [-1, 1, 0], [0, 1, 1]], [[2, 1], [1, 2], [1, -1]]]
 
 
-def case_mgda_scaled_family(sp, iters, hunt=False):
+def _more_bases(k=60):
+    """thorough tier: k further integer 3-row matrices (entries in -2..2, 2 or 3 columns, no zero row), fixed pseudo-random list"""
+    import random
+    rng = random.Random(20240928)
+    out = []
+    while len(out) < k:
+        n = rng.choice([2, 3])
+        M = [[rng.randint(-2, 2) for _ in range(n)] for _ in range(3)]
+        if all(any(r) for r in M) and M not in out:
+            out.append(M)
+    return out
+
+
+def case_mgda_scaled_family(sp, iters, hunt=False, group=None):
     """badly scaled inputs at m = 3 on one-parameter families: a concrete integer matrix with ONE row multiplied by a symbolic t > 0 (all positions,
     a few base matrices).  Queries are univariate, which nlsat decides at once - also the satisfiable ones, so this is where witnesses are found
     when the code is broken.  Obligations: weights in the simplex; search-only: the clause as stated (see case_mgda_rowbound)."""
     set_kernels()
     m = 3
-    J0 = BASE_ROWS_M3[choice(len(BASE_ROWS_M3), "base_matrix")]
+    bases = BASE_ROWS_M3 if group is None else _more_bases()[group * 10:(group + 1) * 10]
+    J0 = bases[choice(len(bases), "base_matrix")]
     r = choice(m, "scaled_row")
     t = named("t")
     assume(t > 0)
